@@ -614,7 +614,7 @@ func Worker(a WorkerArgs) int {
 						res.Stats.Units["violations_needing_prelude"]++
 						continue
 					}
-					if strings.HasPrefix(v.Sig, "alloc:") || strings.HasPrefix(v.Sig, "stress_alloc:") {
+					if strings.HasPrefix(v.Sig, "alloc:") || strings.HasPrefix(v.Sig, "stress_alloc:") || strings.HasPrefix(v.Sig, "alloc_small_multiple:") {
 						delete(res.Found, v.Sig)
 						res.ViolRuns--
 						res.Stats.Units["alloc_borderline_unreproduced"]++
@@ -641,7 +641,7 @@ func Worker(a WorkerArgs) int {
 				// must not happen (executor is deterministic); keep the original
 				min = script
 				mv, mh, _ = RunOnce(p, min, false)
-				if mv == nil && strings.HasPrefix(v.Sig, "alloc:") {
+				if mv == nil && (strings.HasPrefix(v.Sig, "alloc:") || strings.HasPrefix(v.Sig, "alloc_small_multiple:")) {
 					// allocation accounting is exact only to within a couple of MiB; a call
 					// that crossed the (generous) bound by less than that is not reported
 					delete(res.Found, v.Sig)
